@@ -8,21 +8,19 @@ VERIF = os.path.dirname(os.path.dirname(os.path.abspath(__file__)))
 BASELINE_OFF = ("cd /repo && GOFLAGS=-mod=mod GOPROXY=off GOSUMDB=off GOTOOLCHAIN=local "
                 "go test -json -vet=off -count=1 -timeout 25m ./...")
 
-# id -> (category, technique, text, note, design_ref)
-CHECKS = {
-    "C11": ("model_checking",
-            "TLA+ impl-shaped model of putReplicas checked by TLC (refinement of contract, liveness); every model path "
-            "replayed into the real keepclient through a gated fake HTTPClient; recorded traces judged by TLC against "
-            "the contract spec",
-            "TLC exhaustively checks KeepPut.tla (putReplicas step by step) refines KeepPutContract for all outcome "
-            "assignments and completion orders within small bounds, then every one of those paths plus seeded random "
-            "ones beyond the bounds is executed against the real PutB/PutHR and the recorded request/response/return "
-            "trace is validated by TLC against the contract. Exhaustive fault-sequence coverage at the abstract level is "
-            "the right level: the property is about counting and retry rules under all response orders.",
-            "Trusted: fake HTTPClient, trace recorder, numbering of servers by the client's own rendezvous order. "
-            "'Slow response' = completion order only. A 200 reply with unreadable body is outside the generated outcomes.",
-            "DESIGN.md section 6 C11"),
-}
+def load_checks():
+    """checks/<ID>.manifest.json (written next to each check) for every check that exists."""
+    out = {}
+    cd = os.path.join(VERIF, "checks")
+    for f in sorted(os.listdir(cd)):
+        if f.endswith(".manifest.json") and os.path.exists(os.path.join(cd, f.split(".")[0] + ".py")):
+            with open(os.path.join(cd, f)) as fh:
+                m = json.load(fh)
+            out[f.split(".")[0]] = (m["category"], m["technique"], m["text"], m["note"], m.get("design_ref", ""))
+    return out
+
+
+CHECKS = load_checks()
 
 NOT_YET = {}
 
